@@ -17,7 +17,8 @@ func init() {
 func VerifHarness_C14_copy() {
 	M := Address(vParam("M"))
 	L := vParam("len")
-	d := &WarriorData{Name: "w", Code: make([]Instruction, L)}
+	// the caller's slice may have spare capacity (a pre-sized buffer)
+	d := &WarriorData{Name: "w", Code: make([]Instruction, L, L*vParamOr("capfactor", 1))}
 	orig := make([]Instruction, L)
 	for i := 0; i < L; i++ {
 		d.Code[i] = vHavocInstr(M)
@@ -36,6 +37,9 @@ func VerifHarness_C14_copy() {
 	}
 	d.Start = vInt("start2")
 	d.Name = "changed"
+	// ... and appends to its own slice
+	d.Code = append(d.Code, vHavocInstr(M), vHavocInstr(M))
+	d.Code = d.Code[:L]
 	off := Address(vU64("off"))
 	vAssume(off < M)
 	err = s.SpawnWarrior(0, off)
@@ -88,9 +92,16 @@ func VerifHarness_C14_maporder() {
 	if entry == 1 {
 		t = append(t, tText("org"), tText("b"), tNL)
 	}
+	// a FOR count given by an EQU whose value mentions one name twice and
+	// then another one (the reference graph must record all of them)
+	t = append(t, tText("cnt"), tText("equ"), tText("s"), tSym("*"), tText("s"), tSym("-"), tText("q"), tNL)
+	t = append(t, tText("s"), tText("equ"), tNum(2), tNL)
+	t = append(t, tText("q"), tText("equ"), tNum(4), tNL)
 	t = append(t, tText("a"), tText("mov.i"), tSym("#"), tText("y"), tComma, tText("b"), tNL)
 	t = append(t, tText("dat"), tSym("#"), tNum(v), tComma, tSym("#"), tText("a"), tNL)
 	t = append(t, tText("b"), tText("jmp"), tText("a"), tComma, tText("x"), tSym("+"), tNum(1), tNL)
+	// cnt = 2*2-4 = 0 iterations: the block emits nothing but its count must be evaluated
+	t = append(t, tText("i"), tText("for"), tText("cnt"), tNL, tText("dat"), tText("i"), tNL, tText("rof"), tNL)
 	switch entry {
 	case 2:
 		t = append(t, tText("end"), tText("a"), tNL)
